@@ -76,3 +76,30 @@ class UUIDModel:
 def f_uuid4(it):
     it.ex.note("assumed", "uuid.uuid4(): str() of the result is an arbitrary fresh string")
     return it.instantiate(UUIDModel, [it.fresh("str", "uuid4")], {})
+
+
+# datetime.fromisoformat(s).timestamp(): the parsed instant is an uninterpreted real-valued function of the text
+# (ISO-8601 parsing is library behaviour; T2 exercises the real parser).  Parse errors are not modelled (the HAR files
+# under contract are produced by datetime.isoformat()).
+import datetime as _dt
+
+import z3 as _z3
+
+from .lib import builtin_method, uf
+
+
+class DateTimeModel:
+    def __init__(self, ts):
+        self.ts = ts
+
+    def timestamp(self):
+        return self.ts
+
+
+@builtin_method(_dt.datetime, "fromisoformat")
+def _dt_fromisoformat(it, cls, s):
+    s = it.resolve(s)
+    if not isinstance(s, SStr):
+        raise Unsupported("datetime.fromisoformat(non-str)")
+    it.ex.note("assumed", "datetime.fromisoformat(s).timestamp() is an uninterpreted function of s (no parse errors modelled)")
+    return it.instantiate(DateTimeModel, [SFloat(uf("iso_timestamp", _z3.StringSort(), _z3.RealSort())(s.t))], {})
